@@ -386,3 +386,53 @@ def bounded_loop(fi, w, g):
         return True, 'counter %s, limit %s%s' % (
             ctr, limv, ', guarded exit' if guard is not None else '')
     return False, 'no counter with an increment on every path and a limit'
+
+
+def const_eval(node, names=None):
+    """Constant folding of literal arithmetic (lists/tuples/dicts of numbers,
+    np.pi, np.sqrt(const), module-level constant names in `names`).
+    Returns the Python value or raises ValueError."""
+    import math
+    names = names or {}
+
+    def ev(n):
+        c = const(n, _NO)
+        if c is not _NO:
+            return c
+        if isinstance(n, (ast.List, ast.Tuple)):
+            v = [ev(e) for e in n.elts]
+            return v if isinstance(n, ast.List) else tuple(v)
+        if isinstance(n, ast.Dict):
+            return {ev(k): ev(v) for k, v in zip(n.keys, n.values)}
+        s = src(n)
+        if s in ('np.pi', 'math.pi', 'numpy.pi'):
+            return math.pi
+        if isinstance(n, ast.Name) and n.id in names:
+            return names[n.id]
+        if isinstance(n, ast.UnaryOp) and isinstance(n.op, ast.USub):
+            return -ev(n.operand)
+        if isinstance(n, ast.BinOp):
+            l, r = ev(n.left), ev(n.right)
+            if isinstance(n.op, ast.Add):
+                return l + r
+            if isinstance(n.op, ast.Sub):
+                return l - r
+            if isinstance(n.op, ast.Mult):
+                return l * r
+            if isinstance(n.op, ast.Div):
+                return l / r
+            if isinstance(n.op, ast.Pow):
+                return l ** r
+        if isinstance(n, ast.Call) and call_name(n) in ('np.sqrt',
+                                                        'math.sqrt') \
+                and len(n.args) == 1:
+            return math.sqrt(ev(n.args[0]))
+        if isinstance(n, ast.Subscript):
+            v = ev(n.value)
+            if isinstance(n.slice, ast.Slice):
+                lo = ev(n.slice.lower) if n.slice.lower else None
+                hi = ev(n.slice.upper) if n.slice.upper else None
+                return v[lo:hi]
+            return v[ev(n.slice)]
+        raise ValueError('not a constant expression: ' + s)
+    return ev(node)
